@@ -155,6 +155,13 @@ Definition op_conv_list : opfun := fun zs _ =>
   | _ => Err (-1)
   end.
 
+(* zs = [t1; t2] -> action code of operators._tensor_product for the operand type codes, -1 = TypeError *)
+Definition op_tp_dispatch : opfun := fun zs _ =>
+  match zs with
+  | [t1; t2] => Ok [match tp_dispatch t1 t2 with Some a => qz a | None => qz (-1) end]
+  | _ => Err (-1)
+  end.
+
 Definition C07_ops : optable :=
   [ ("c07.eval"%string, op_eval);
     ("c07.eval_spec"%string, op_eval_spec);
@@ -166,4 +173,5 @@ Definition C07_ops : optable :=
     ("c07.tp_probs"%string, op_tp_probs);
     ("c07.embed_perm"%string, op_embed_perm);
     ("c07.embed_mat"%string, op_embed_mat);
-    ("c07.conv_list"%string, op_conv_list) ].
+    ("c07.conv_list"%string, op_conv_list);
+    ("c07.tp_dispatch"%string, op_tp_dispatch) ].
